@@ -99,7 +99,7 @@ fn candidates(h: &History, v: &Violation) -> Vec<History> {
                 // earlier fault
                 for (fi, f) in session.faults.iter().enumerate() {
                     let k = match f {
-                        Fault::Kill { k, .. } | Fault::Fail { k, .. } => *k,
+                        Fault::Kill { k, .. } | Fault::Fail { k, .. } | Fault::FailKind { k, .. } => *k,
                         _ => 0,
                     };
                     for nk in [0, k / 2, k.saturating_sub(1)] {
@@ -107,7 +107,7 @@ fn candidates(h: &History, v: &Violation) -> Vec<History> {
                             let mut c = h.clone();
                             if let Step::Start { session } = &mut c.steps[si] {
                                 match &mut session.faults[fi] {
-                                    Fault::Kill { k, .. } | Fault::Fail { k, .. } => *k = nk,
+                                    Fault::Kill { k, .. } | Fault::Fail { k, .. } | Fault::FailKind { k, .. } => *k = nk,
                                     _ => {}
                                 }
                             }
